@@ -682,7 +682,7 @@ def run_big(ctx, rng, nnets, fixed=None):
             ctx.violation('edge_weight_not_fibre_length', f'edge {u} -> {v} weighs {got}, fibre length rule gives {want}',
                           {'big': True, 'topo': topo, 'requests': []})
         cases, keep = [], []
-        for k in range(8 if fixed is None else len(fixed[i]['requests'])):
+        for k in range(6 if fixed is None else len(fixed[i]["requests"])):
             rq = gen_big_request(rng, N, k) if fixed is None else fixed[i]['requests'][k]
             obs = drive_request(N, rq)
             case = {'big': True, 'topo': topo, 'requests': [rq]}
@@ -774,7 +774,7 @@ def run(ctx):
             c = json.load(open(fpath))
             c['_corpus'] = os.path.basename(fpath)
             nets.append(c)
-        for _ in range(ctx.scale(110, 1500)):
+        for _ in range(ctx.scale(100, 1500)):
             nets.append({'topo': gen_case(rng), 'requests': None})
     vec_nets = [c for c in nets if 'groups' in c]             # batches with a synchronisation vector (corpus / replay)
     nets = [c for c in nets if 'groups' not in c]
@@ -824,7 +824,7 @@ def run(ctx):
         # proved-complete exists_disjoint_pair (machinery shared with the C12 check)
         from . import c12
         c12.process(ctx, rng, [c12.gen_vector_case(rng) for _ in range(ctx.scale(30, 500))], 'C11', 'vec')
-        run_big(ctx, rng, ctx.scale(10, 80))
+        run_big(ctx, rng, ctx.scale(8, 80))
     elif nets and nets[0].get('big'):
         run_big(ctx, rng, 1, fixed=nets)
     ctx.assumptions += [
